@@ -158,6 +158,7 @@ struct Args {
   uint64_t seed = 1;
   std::string replay_id;       // non-empty: only the case with this id is executed
   double deadline_s = 1e18;    // global wall-clock budget of the tier
+  double case_limit_s = 1e18;  // a single case that does not return within this time is a hang (reported as a violation; VERIF_CASE_TIMEOUT)
   double t0 = 0;
   int workers = 16;
   std::string verif_dir = "/verif";
@@ -220,6 +221,8 @@ inline Args parse_args(const char* prop, int argc, char** argv, double quick_dea
     else machinery_error("unknown argument %s", s.c_str());
   }
   a.deadline_s = a.thorough() ? thorough_deadline : quick_deadline;
+  a.case_limit_s = a.thorough() ? 900 : 120;
+  { const char* cl = getenv("VERIF_CASE_TIMEOUT"); if (cl && *cl) a.case_limit_s = atof(cl); }
   const char* dl = getenv("VERIF_DEADLINE_S");
   if (dl && *dl) a.deadline_s = atof(dl);
   return a;
@@ -244,6 +247,8 @@ struct WorkerShm {
   volatile uint64_t nhash;  // number of hashes appended to this worker's segment
   volatile uint64_t cur_item, wants_in_item;  // resume information after a crash
   volatile int item_active;
+  volatile double case_t0;   // when the current case began (hang watchdog)
+  volatile int hung;         // set by the parent when it kills this worker for exceeding the per-case limit
 };
 struct GlobalShm {
   volatile uint64_t next_item;
@@ -322,6 +327,7 @@ struct Ctx {
     WorkerShm& s = my();
     strncpy(s.cur, id.c_str(), sizeof s.cur - 1);
     s.cur[sizeof s.cur - 1] = 0;
+    s.case_t0 = now();
     s.in_case = 1;
   }
   // nontrivial: by the check's stated rule
@@ -395,7 +401,14 @@ struct Ctx {
     int alive = nproc;
     while (alive > 0) {
       int st = 0;
-      pid_t p = wait(&st);
+      pid_t p = waitpid(-1, &st, WNOHANG);
+      if (p == 0) {  // nobody exited: hang watchdog, then sleep a little
+        const double lim = args.case_limit_s * (args.replaying() ? 1.5 : 1);  // a replay runs the case alone with a longer limit before it is called a hang
+        for (int j = 0; j < nproc; ++j)
+          if (pid[j] > 0 && w[j].in_case && !w[j].hung && now() - w[j].case_t0 > lim) { w[j].hung = 1; kill(pid[j], SIGKILL); }
+        usleep(20000);
+        continue;
+      }
       if (p < 0) break;
       int k = -1;
       for (int j = 0; j < nproc; ++j) if (pid[j] == p) k = j;
@@ -406,16 +419,20 @@ struct Ctx {
         std::string id = w[k].in_case ? std::string(w[k].cur) : std::string("<outside any case>");
         std::string how = WIFSIGNALED(st) ? sfmt("killed by signal %d (%s)", WTERMSIG(st), strsignal(WTERMSIG(st)))
                                           : sfmt("exited with status %d", WEXITSTATUS(st));
+        const bool hung = w[k].hung != 0;
+        w[k].hung = 0;
         if (!w[k].in_case) machinery_error("worker died outside any case: %s (%s)", how.c_str(), phase);
         int save = me; me = k;
-        violation(id, "the call crashed: " + how);
+        violation(id, hung ? sfmt("the call did not return within %.0f s (the case normally takes far less): non-termination", args.case_limit_s * (args.replaying() ? 1.5 : 1))
+                           : "the call crashed: " + how);
         my().evals++;
         my().in_case = 0;
         me = save;
         parent_restarts++;
-        if (parent_restarts > 400) { g->crash_cap_hit = 1; alive--; continue; }  // enough evidence: stop exploring, report
+        if (parent_restarts > 400 || hung) { g->crash_cap_hit = 1; pid[k] = 0; alive--; continue; }  // enough evidence (many crashes, or one hang: every further one would cost the full limit): stop exploring, report
         spawn(k, true);  // finish the interrupted item (skipping what was already executed), then continue
       } else {
+        pid[k] = 0;
         alive--;
       }
     }
@@ -479,7 +496,7 @@ struct Ctx {
       if (samples.empty()) sm.push("(none)");
       cov.set("samples", sm);
       cov.set("exhaustive", exhaustive_if_no_cap && !capped);
-      if (g->crash_cap_hit) cov.set("cap_hit", "exploration stopped after 400 crashing cases (all reported as violations)");
+      if (g->crash_cap_hit) cov.set("cap_hit", "exploration stopped after a case that did not terminate or after 400 crashing cases (all reported as violations)");
       else if (capped) cov.set("cap_hit", sfmt("global deadline of %.0f s reached; %llu work items completed", args.deadline_s,
                                           (unsigned long long)g->items_done));
       Json met = Json::obj();
